@@ -10,15 +10,13 @@ pub struct Lex {
 
 impl Lex {
     pub fn new(start: CaretPos, token: Token) -> Self {
-        let end = if let Token::Str(_str, _) = &token {
-            start.offset_line(_str.matches('\n').count())
-        } else if let Token::DocStr(_str) = &token {
-            start.offset_line(_str.matches('\n').count())
+        let (line_breaks, last_line_width) = token.extent();
+        let end = if line_breaks > 0 {
+            CaretPos::new(start.line + line_breaks, last_line_width + 1)
         } else {
-            start
+            start.offset_pos(last_line_width)
         };
 
-        let end = end.offset_pos(token.clone().width());
         let pos = Position { start, end };
         Lex { pos, token }
     }
@@ -136,6 +134,15 @@ pub enum Token {
 impl Token {
     pub fn width(&self) -> usize {
         self.to_string().len()
+    }
+
+    /// Number of line breaks in the text of this token, and the width of its last line.
+    pub fn extent(&self) -> (usize, usize) {
+        let text = self.to_string();
+        match text.rfind('\n') {
+            Some(idx) => (text.matches('\n').count(), text.len() - idx - 1),
+            None => (0, text.len()),
+        }
     }
 
     pub fn same_type(left: &Token, right: &Token) -> bool {
